@@ -291,7 +291,72 @@ class Ctx:
         self.cov["states"] += r.distinct
         self.cov["transitions"] += r.generated
         log("TRACE %s: %d events, %d VIOL, %d DRIFT, %.1fs" % (module, nlines, len(viol), len(drift), r.wall))
+        if (self.tier == "thorough" or os.environ.get("VERIF_BINDDEMO")) and not self.notes.get("binding_demo"):
+            try:
+                self._binding_demo(module, cfg, dst, timeout, heap)
+            except Exception as e:  # informational only
+                self.notes["binding_demo"] = {"error": str(e)[:300]}
         return viol, drift
+
+    def _binding_demo(self, module, cfg, dst, timeout, heap):
+        """Informational (never decides): shows that the trace specification is bound to what the real code logged.
+        A prefix of the recorded log is validated as it is and then six more times with ONE logged field of ONE
+        event falsified; a falsified log must be rejected (more VIOL/DRIFT lines than the untouched prefix, or TLC
+        refusing it).  The outcome is stored in the evidence (notes.binding_demo)."""
+        import random
+        orig = open(dst).read().splitlines()
+        cut = min(len(orig), 3000)
+        for i in range(cut, 200, -1):
+            if i < len(orig):
+                try:
+                    if json.loads(orig[i]).get("op") == "world":
+                        cut = i
+                        break
+                except ValueError:
+                    pass
+        prefix = orig[:cut]
+
+        def run(lines):
+            with open(dst, "w") as f:
+                f.write("\n".join(lines) + "\n")
+            r = tlc(self, module, cfg=cfg, workers=1, timeout=min(timeout, 600), heap=heap)
+            return (len(printed_json(r, "VIOL")) + len(printed_json(r, "DRIFT")), r.ok)
+        try:
+            base, base_ok = run(prefix)
+            rng = random.Random(self.seed * 7919 + 13)
+            cands = []
+            for i, ln in enumerate(prefix):
+                try:
+                    e = json.loads(ln)
+                except ValueError:
+                    continue
+                if e.get("op") in ("world", None):
+                    continue
+                keys = [k for k, v in e.items() if k not in ("op", "run", "seq", "line", "ms", "wall") and isinstance(v, (bool, int, list)) ]
+                if keys:
+                    cands.append((i, sorted(keys)))
+            rng.shuffle(cands)
+            details = []
+            for i, keys in cands[:6]:
+                e = json.loads(prefix[i])
+                k = keys[rng.randrange(len(keys))]
+                v = e[k]
+                if isinstance(v, bool):
+                    e[k] = not v
+                elif isinstance(v, int):
+                    e[k] = v + 1
+                else:
+                    e[k] = v[:-1] if v else [0]
+                lines = list(prefix)
+                lines[i] = json.dumps(e)
+                n, ok = run(lines)
+                details.append({"event": i + 1, "op": e.get("op"), "field": k, "rejected": (n > base) or not ok})
+            self.notes["binding_demo"] = {"module": module, "prefix_events": len(prefix), "baseline_reports": base, "baseline_accepted": base_ok,
+                                          "falsified_logs": len(details), "rejected": sum(1 for d in details if d["rejected"]), "details": details}
+            log("BIND %s: %d/%d falsified logs rejected" % (module, self.notes["binding_demo"]["rejected"], len(details)))
+        finally:
+            with open(dst, "w") as f:
+                f.write("\n".join(orig) + "\n")
 
     # ---- verdict ---------------------------------------------------------------------------------------------
     def add_violation(self, sig, what, replay=None):
